@@ -90,6 +90,20 @@ type Event struct {
 	Kind string   `json:"kind"`
 	Args []uint64 `json:"args"`
 	List []uint64 `json:"list,omitempty"`
+	// the instant the request was made (ms of fake time since the call started) and whether the
+	// context it came with was still alive
+	At   uint64 `json:"at,omitempty"`
+	Live bool   `json:"live,omitempty"`
+}
+
+// Cuts: which sequential answers of Propose the providers cut short with the context's error
+// (the context ended before the answer was ready, or had ended before the request came).
+type Cuts struct {
+	Graffiti bool `json:"graffiti,omitempty"`
+	Auction  bool `json:"auction,omitempty"`
+	Proposal bool `json:"proposal,omitempty"`
+	Domain   bool `json:"domain,omitempty"`
+	Sign     bool `json:"sign,omitempty"`
 }
 
 type Call struct {
@@ -103,14 +117,67 @@ type recorder struct {
 	events []Event
 	calls  [][]Call
 	submit *Submit
+	// the instant the last sequential answer was given: relay calls and the submission are timed from it
+	t0     uint64
+	cut    Cuts
+	subCut bool
 }
 
 func (r *recorder) now() uint64 { return uint64(time.Since(r.start) / time.Millisecond) }
 
+// since is the time since the last sequential answer
+func (r *recorder) since() uint64 {
+	n := r.now()
+	r.mu.Lock()
+	defer r.mu.Unlock()
+	if n < r.t0 {
+		return 0
+	}
+	return n - r.t0
+}
+
 func (r *recorder) add(kind string, args ...uint64) {
 	r.mu.Lock()
-	r.events = append(r.events, Event{Kind: kind, Args: args})
+	r.events = append(r.events, Event{Kind: kind, Args: args, At: r.now(), Live: true})
 	r.mu.Unlock()
+}
+
+// addCtx records a request together with its instant and the state of the context it came with
+func (r *recorder) addCtx(ctx context.Context, kind string, args ...uint64) {
+	at := r.now()
+	r.mu.Lock()
+	r.events = append(r.events, Event{Kind: kind, Args: args, At: at, Live: ctx.Err() == nil})
+	r.mu.Unlock()
+}
+
+// answered notes that a sequential answer is given now; cut: it is the context's error
+func (r *recorder) answered(cut *bool, err error) {
+	n := r.now()
+	r.mu.Lock()
+	r.t0 = n
+	if err != nil && cut != nil {
+		*cut = true
+	}
+	r.mu.Unlock()
+}
+
+// serve is what every provider does with a request, like a real client: nothing if the context is
+// already over, otherwise work for lat ms (of fake time) unless the context ends first.
+func serve(ctx context.Context, lat uint64) error {
+	if err := ctx.Err(); err != nil {
+		return err
+	}
+	if lat == 0 {
+		return nil
+	}
+	t := time.NewTimer(time.Duration(lat) * time.Millisecond)
+	defer t.Stop()
+	select {
+	case <-t.C:
+		return nil
+	case <-ctx.Done():
+		return ctx.Err()
+	}
 }
 
 // ---------------------------------------------------------------------------------------------
@@ -531,7 +598,7 @@ func (a *account) SignGeneric(_ context.Context, data []byte, domain []byte) (e2
 	return fakeSig{s[:]}, nil
 }
 
-func (a *account) SignBeaconProposal(_ context.Context, slot uint64, proposerIndex uint64, parentRoot []byte, stateRoot []byte, bodyRoot []byte, domain []byte) (e2types.Signature, error) {
+func (a *account) SignBeaconProposal(ctx context.Context, slot uint64, proposerIndex uint64, parentRoot []byte, stateRoot []byte, bodyRoot []byte, domain []byte) (e2types.Signature, error) {
 	dt, de := decodeDomain(domain)
 	body := uint64(Unknown)
 	if len(bodyRoot) == 32 {
@@ -546,7 +613,12 @@ func (a *account) SignBeaconProposal(_ context.Context, slot uint64, proposerInd
 	if len(stateRoot) == 32 {
 		state = get(stateRoot)
 	}
-	a.rec.add("signblock", a.id, slot, proposerIndex, parent, state, body, dt, de)
+	a.rec.addCtx(ctx, "signblock", a.id, slot, proposerIndex, parent, state, body, dt, de)
+	err := serve(ctx, a.in.LatSign)
+	a.rec.answered(&a.rec.cut.Sign, err)
+	if err != nil {
+		return nil, err
+	}
 	if a.in.SigBlock == nil {
 		return nil, errors.New("scripted signing failure")
 	}
@@ -581,7 +653,7 @@ func signingRoot(object phase0.Root, domain phase0.Domain) [32]byte {
 	return r
 }
 
-func (a *plainAccount) Sign(_ context.Context, data []byte) (e2types.Signature, error) {
+func (a *plainAccount) Sign(ctx context.Context, data []byte) (e2types.Signature, error) {
 	in := a.w.in
 	var root [32]byte
 	if len(data) == 32 {
@@ -660,7 +732,12 @@ func (a *plainAccount) Sign(_ context.Context, data []byte) (e2types.Signature, 
 										if body == Unknown {
 											body = name(br)
 										}
-										a.w.rec.add("signblock", a.id, sl, idx, get(pr[:]), get(sr[:]), body, uint64(t[0]), e2)
+										a.w.rec.addCtx(ctx, "signblock", a.id, sl, idx, get(pr[:]), get(sr[:]), body, uint64(t[0]), e2)
+										err := serve(ctx, in.LatSign)
+										a.w.rec.answered(&a.w.rec.cut.Sign, err)
+										if err != nil {
+											return nil, err
+										}
 										if in.SigBlock == nil {
 											return nil, errors.New("scripted signing failure")
 										}
@@ -684,7 +761,12 @@ func (a *plainAccount) Sign(_ context.Context, data []byte) (e2types.Signature, 
 		s := sigOf(*in.SigRandao)
 		return fakeSig{s[:]}, nil
 	}
-	a.w.rec.add("signblock", a.id, Unknown, Unknown, Unknown, Unknown, Unknown, Unknown, Unknown)
+	a.w.rec.addCtx(ctx, "signblock", a.id, Unknown, Unknown, Unknown, Unknown, Unknown, Unknown, Unknown)
+	if err := serve(ctx, in.LatSign); err != nil {
+		a.w.rec.answered(&a.w.rec.cut.Sign, err)
+		return nil, err
+	}
+	a.w.rec.answered(nil, nil)
 	if in.SigBlock == nil {
 		return nil, errors.New("scripted signing failure")
 	}
@@ -739,6 +821,7 @@ func (w *world) begin(proposing bool) {
 	w.rec.events = nil
 	w.rec.calls = make([][]Call, len(w.in.Relays))
 	w.rec.submit = nil
+	w.rec.t0, w.rec.cut, w.rec.subCut = 0, Cuts{}, false
 	w.rec.mu.Unlock()
 }
 
@@ -873,12 +956,20 @@ func (w *world) Spec(context.Context, *api.SpecOpts) (*api.Response[map[string]a
 }
 
 // domain provider (signer)
-func (w *world) Domain(_ context.Context, dt phase0.DomainType, epoch phase0.Epoch) (phase0.Domain, error) {
+func (w *world) Domain(ctx context.Context, dt phase0.DomainType, epoch phase0.Epoch) (phase0.Domain, error) {
 	t := uint64(dt[0])
 	if dt[1] != 0 || dt[2] != 0 || dt[3] != 0 {
 		t = Unknown
 	}
-	w.rec.add("domain", t, uint64(epoch))
+	w.rec.addCtx(ctx, "domain", t, uint64(epoch))
+	if w.proposing {
+		// the signer's request on behalf of Propose (Prepare's calls may run outside a bubble: no waiting there)
+		err := serve(ctx, w.in.LatDomain)
+		w.rec.answered(&w.rec.cut.Domain, err)
+		if err != nil {
+			return phase0.Domain{}, err
+		}
+	}
 	ok := true
 	switch dt {
 	case domainRandao:
@@ -900,8 +991,13 @@ func (w *world) GenesisDomain(_ context.Context, dt phase0.DomainType) (phase0.D
 // graffiti provider
 type graffiti struct{ w *world }
 
-func (g graffiti) Graffiti(_ context.Context, slot phase0.Slot, idx phase0.ValidatorIndex) ([]byte, error) {
-	g.w.rec.add("graffiti", uint64(slot), uint64(idx))
+func (g graffiti) Graffiti(ctx context.Context, slot phase0.Slot, idx phase0.ValidatorIndex) ([]byte, error) {
+	g.w.rec.addCtx(ctx, "graffiti", uint64(slot), uint64(idx))
+	err := serve(ctx, g.w.in.LatGraffiti)
+	g.w.rec.answered(&g.w.rec.cut.Graffiti, err)
+	if err != nil {
+		return nil, err
+	}
 	if g.w.in.Graffiti == "err" {
 		return nil, errors.New("scripted graffiti failure")
 	}
@@ -934,7 +1030,7 @@ type relayCan struct {
 }
 
 func (r *relayCan) UnblindProposal(ctx context.Context, opts *builderapi.UnblindProposalOpts) (*builderapi.Response[*api.VersionedSignedProposal], error) {
-	start := r.w.rec.now()
+	start := r.w.rec.since()
 	var req Req
 	if opts == nil {
 		req = Req{Version: Unknown}
@@ -992,8 +1088,13 @@ type auctioneer struct {
 	w *world
 }
 
-func (a *auctioneer) AuctionBlock(_ context.Context, slot phase0.Slot, parentHash phase0.Hash32, pubkey phase0.BLSPubKey) (*blockauctioneer.Results, error) {
-	a.w.rec.add("auction", uint64(slot), get(parentHash[:]), get(pubkey[:]))
+func (a *auctioneer) AuctionBlock(ctx context.Context, slot phase0.Slot, parentHash phase0.Hash32, pubkey phase0.BLSPubKey) (*blockauctioneer.Results, error) {
+	a.w.rec.addCtx(ctx, "auction", uint64(slot), get(parentHash[:]), get(pubkey[:]))
+	err := serve(ctx, a.w.in.LatAuction)
+	a.w.rec.answered(&a.w.rec.cut.Auction, err)
+	if err != nil {
+		return nil, err
+	}
 	if a.w.in.Auction == "err" {
 		return nil, errors.New("scripted auction failure")
 	}
@@ -1010,12 +1111,17 @@ func (a *auctioneer) AuctionBlock(_ context.Context, slot phase0.Slot, parentHas
 }
 
 // beacon node
-func (w *world) Proposal(_ context.Context, opts *api.ProposalOpts) (*api.Response[*api.VersionedProposal], error) {
+func (w *world) Proposal(ctx context.Context, opts *api.ProposalOpts) (*api.Response[*api.VersionedProposal], error) {
 	boost := uint64(Unknown)
 	if opts.BuilderBoostFactor != nil {
 		boost = *opts.BuilderBoostFactor
 	}
-	w.rec.add("proposal", uint64(opts.Slot), get(opts.RandaoReveal[:]), get(opts.Graffiti[:]), boost)
+	w.rec.addCtx(ctx, "proposal", uint64(opts.Slot), get(opts.RandaoReveal[:]), get(opts.Graffiti[:]), boost)
+	err := serve(ctx, w.in.LatProposal)
+	w.rec.answered(&w.rec.cut.Proposal, err)
+	if err != nil {
+		return nil, err
+	}
 	if w.in.Proposal == nil {
 		return nil, errors.New("scripted proposal failure")
 	}
@@ -1032,8 +1138,8 @@ type Submit struct {
 	Count   int    `json:"count"`
 }
 
-func (w *world) SubmitProposal(_ context.Context, sp *api.VersionedSignedProposal) error {
-	at := w.rec.now()
+func (w *world) SubmitProposal(ctx context.Context, sp *api.VersionedSignedProposal) error {
+	at := w.rec.since()
 	s := &Submit{At: at, Version: Unknown, Count: 1}
 	if sp != nil {
 		s.Version, s.Blinded, s.Conts = uint64(sp.Version), sp.Blinded, w.tab.decodeConts(sp)
@@ -1044,6 +1150,12 @@ func (w *world) SubmitProposal(_ context.Context, sp *api.VersionedSignedProposa
 	}
 	w.rec.submit = s
 	w.rec.mu.Unlock()
+	if err := serve(ctx, w.in.LatSubmit); err != nil {
+		w.rec.mu.Lock()
+		w.rec.subCut = true
+		w.rec.mu.Unlock()
+		return err
+	}
 	if !w.in.SubmitOK {
 		return errors.New("scripted submission failure")
 	}
